@@ -27,6 +27,7 @@ type RunDef struct {
 	Preempt       int
 	Reach         []string // labels that must be reached (vacuity guard)
 	FuelViolation bool
+	NativeTwin    string // for scheduler runs: harness function run natively to confirm known findings (expects a Go panic)
 	Note          string
 }
 
@@ -234,6 +235,25 @@ func cmdCheck(args []string) int {
 			path := filepath.Join(replayDir, fmt.Sprintf("%s-%x.json", id, h[:5]))
 			os.WriteFile(path, b, 0o644)
 			status := "engine-only"
+			if !*noReplay && o.def.Sched && o.def.NativeTwin != "" && v.Known != "" {
+				if nativeBin == "" {
+					nativeBin, err = buildNative(ck.Pkg, l)
+					if err != nil {
+						fmt.Fprintln(os.Stderr, "native replay build failed:", err)
+						return 2
+					}
+					defer os.RemoveAll(filepath.Dir(nativeBin))
+				}
+				nativeRuns++
+				twin := rec
+				twin.Fn, twin.Setup, twin.Kind = o.def.NativeTwin, "", "panic"
+				if okRep, _ := runNative(nativeBin, path, twin); okRep {
+					status = "engine-replayed; native twin " + o.def.NativeTwin + " reproduced"
+					reproduced++
+				} else {
+					status = "engine-replayed; native twin did not reproduce"
+				}
+			}
 			if !*noReplay && !o.def.Sched {
 				if nativeBin == "" {
 					nativeBin, err = buildNative(ck.Pkg, l)
@@ -431,7 +451,7 @@ func firstLine(s string) string {
 func buildNative(pkg string, l *engine.Loaded) (string, error) {
 	var fns []string
 	for name := range l.Main.Members {
-		if strings.HasPrefix(name, "H_") || strings.HasPrefix(name, "Setup") {
+		if strings.HasPrefix(name, "H_") || strings.HasPrefix(name, "N_") || strings.HasPrefix(name, "Setup") {
 			if l.Main.Func(name) != nil {
 				fns = append(fns, name)
 			}
